@@ -28,7 +28,10 @@ impl<const N: usize> Sodg<N> {
     /// If alerts trigger any error, the error will be returned here.
     #[inline]
     pub fn add(&mut self, v1: usize) {
-        self.vertices.get_mut(v1).unwrap().branch = 1;
+        let vtx = self.vertices.get_mut(v1).unwrap();
+        if vtx.branch == BRANCH_NONE {
+            vtx.branch = BRANCH_STATIC;
+        }
         #[cfg(debug_assertions)]
         trace!("#add: vertex ν{v1} added");
     }
